@@ -37,6 +37,9 @@ pub struct OpsCase {
     pub initial: u8,
     pub seed: u64,
     pub ops: Vec<OpSpec>,
+    /// non-empty: relations are read off a witness solution with these choices and added to the problem
+    #[serde(default)]
+    pub relations: Vec<u16>,
 }
 
 pub const RUINS: [&str; 9] = ["adjusted-string", "neighbour", "random-job", "random-route", "close-route", "worst-route", "worst-job", "cluster", "composite"];
@@ -471,7 +474,7 @@ impl Prop for OpsProp {
         if self.cache { "operator_histories_cache" } else { "operator_histories_invariant" }
     }
     fn strategy(&self, tier: Tier) -> BoxedStrategy<OpsCase> {
-        (mixed_spec(tier.pick(12, 24)), 0u8..RECREATES.len() as u8, any::<u64>(), prop::collection::vec(op_strategy(), 1..=tier.pick(12, 40))).prop_map(|(spec, initial, seed, ops)| OpsCase { spec, initial, seed, ops }).boxed()
+        (mixed_spec(tier.pick(12, 24)), 0u8..RECREATES.len() as u8, any::<u64>(), prop::collection::vec(op_strategy(), 1..=tier.pick(12, 40)), prop_oneof![3 => Just(vec![]), 1 => prop::collection::vec(any::<u16>(), 24)]).prop_map(|(spec, initial, seed, ops, relations)| OpsCase { spec, initial, seed, ops, relations }).boxed()
     }
     fn cases(&self, tier: Tier) -> u32 {
         tier.pick(12_000, 100_000)
@@ -484,7 +487,18 @@ impl Prop for OpsProp {
     }
     fn check(&self, c: &OpsCase, stats: &Stats) -> Check {
         let property = if self.cache { "C05" } else { "C04" };
-        let rendered = render(&c.spec);
+        let mut rendered = render(&c.spec);
+        if !c.relations.is_empty() {
+            // pinned jobs: relations read off a witness solution of the (metric) problem
+            let base = render(&super::e2e::relation_spec(c.spec.clone()));
+            rendered = match super::e2e::with_witness_relations(&base, &c.relations, stats)? {
+                Some((locked, _)) => {
+                    stats.class("ops.problem_with_relations");
+                    locked
+                }
+                None => base,
+            };
+        }
         let core = read_core(&rendered.problem, &rendered.matrices).map_err(|e| Failure::new("harness:generator-invalid", format!("generated problem was rejected: {e}")))?;
         // single-thread pool: the case seed owns the random streams
         let pool = ThreadPool::new(1);
@@ -639,7 +653,7 @@ pub fn property(id: &'static str, _tier: Tier) -> PropertyDef {
             "proptest operator histories (1-12 steps quick, 40 thorough) on states built from generated pragmatic problems (pgen, all features) by a generated recreate; operators drawn from all shipped ones through public constructors (9 ruins incl. composite, 11 recreates, 7 local operators, 8 search operators incl. decompose, redistribute, infeasible+repair, LKH both modes) inside a 1-thread pool with a seeded Random. After EVERY step: Inv = every customer job in exactly one of {one tour, unassigned, required, ignored}, marker jobs at most once, registry availability == not used by a route, no actor shared, next_route never offers a used actor, tour job set == jobs of activities, single jobs one activity, multi jobs whole with each task once in an order their validate() accepts, no empty route, and the assigned part passes R's feasibility and conservation oracles (through the public solution writer; ruin outputs refreshed first); plus parent unchanged = deep structural snapshot (activities with places and schedules, job lists, registry, state digests) equal before and after the call. evaluations = operator applications. Non-trivial: an application that changed the solution; every operator kind must be effective at least once. Distinct by (case hash, step)."
         },
         assumptions: vec![
-            "relations/locks are not generated yet, so the pinned-jobs clause is vacuous in this engine",
+            "pinned jobs: every 4th history runs on a problem with relations read off a witness solution (any / sequence / strict, departure and arrival anchors); tours that use a reload are left unlocked",
             "thread interleavings: operators run inside a 1-thread pool (search_many-style parallel application is not exercised here)",
             "history-carrying solution state (tabu list, footprint, rosomaxa weights) is excluded from comparisons by key",
         ],
